@@ -93,4 +93,12 @@ CHECKS["C09"] = {"text": "Proved on the model: a run with state and log initiali
     "note": COMMON_NOTE.replace("no axioms (Print Assumptions: closed under the global context)", "one standard-library axiom: functional_extensionality_dep (used to state order independence as equality of states)") +
             " PARTIAL: order independence of __check_working's set and the process-level clauses are exercised by the harness, not proved.",
     "technique": "Coq proof (independence of the incoming state; commuting folds over permutations) + harness: forced visit orders, rerun, fresh processes"}
+CHECKS["C20"] = {"text": "Proved on the model: configuring from a successfully simulated project sets the work amount to its duration (minus the number of distinct absence steps inside the run when "
+    "they are removed), takes over its unit time, and the unit rate becomes parent unit / sub-project unit; configuring from any other project is refused with a warning and changes nothing; an automatic "
+    "task that starts with remaining work d and unit rate r is WORKING for exactly ceil(d/r) working steps (0 for d = 0) for all d >= 0, r > 0 on a grid with no positive remainder below the finishing "
+    "tolerance, and that grid condition holds for whole-step durations and unit ratios pu/su with su <= 1e10; in the simulation an automatic WORKING task loses exactly its rate per working step and is never "
+    "given workers or facilities. PARTIAL: the run-level statement (exactly N consecutive working steps of the parent log, starting when the ready gate first holds) is checked by the oracle on the "
+    "implementation (dyadic and non-dyadic unit pairs), not stated as a single theorem over runs.",
+    "note": COMMON_NOTE + " PARTIAL as stated. Configuration outcomes are compared with the model by generated cases files (vm_compute).",
+    "technique": "Coq proof (configuration arithmetic; least-n / ceiling characterisation with Qceiling; per-step progress) + oracle on parent runs + vm_compute correspondence of configure/set_rate"}
 NOT_APPLICABLE = {}
